@@ -1,4 +1,4 @@
-"""C29 - package database updates are crash-consistent (installed-package database part)."""
+"""C29 - package database updates are crash-consistent."""
 import builtins
 import os
 import shutil
@@ -8,6 +8,8 @@ from types import SimpleNamespace
 from snakeoil import data_source
 
 from pkgcore.fs import livefs
+from pkgcore.binpkg import repo_ops as bin_ops
+from pkgcore.binpkg import repository as bin_repo
 from pkgcore.vdb import ondisk, repo_ops
 from sx import core
 from sx.runner import Harness
@@ -16,20 +18,22 @@ from sx.shims import patched
 ID = "C29"
 MANIFEST = {
     "technique": "bounded model checking with solver-decided choice (SX engine): the operation on the installed-package database (install, uninstall, replace by the same version, replace by another version), the set of metadata the package carries and the index of the file operation at which the process stops (directory creation, every file open-for-write and write, the CONTENTS flush, every unlink/rmdir of the removal, every rename, utime) are symbolic selectors; os / shutil / open as seen by pkgcore.vdb.repo_ops are wrapped to count operations and stop at the chosen one; the engine forks over every feasible combination, runs the real vdb repo_ops.install / uninstall / replace stages (start, add_data, remove_data, finalize_data) on a real scratch database and compares what a fresh ondisk.tree lists and reads at the moment of the stop with the state before and the state after an undisturbed twin run",
-    "level_text": "Bounded model checking, exhaustive within the bound: 4 operations x 2 metadata shapes x every file-operation index (0..39): a fresh view of the database lists, for the package, exactly the old state or exactly the new state (for a replacement by another version also both, each complete) with slot, description, contents and environment readable and equal to what was recorded; never a partially written or partially removed package and never none of them. Selector-only; real code on real files. Binary-package repositories are outside this check.",
+    "level_text": "Bounded model checking, exhaustive within the bound: vdb: 5 operations (install, uninstall, replace by the same version, by another version, by another revision) x 2 metadata shapes x every file-operation index (0..39); binary-package repository: install, uninstall, same-version replace x every rename/unlink: a fresh view of the database lists, for the package, exactly the old state or exactly the new state (for a replacement by another version also both, each complete) with slot, description, contents and environment readable and equal to what was recorded; never a partially written or partially removed package and never none of them. Selector-only; real code on real files.",
     "level_note": "selector-only harness (labelled as such). A stop is an exception nothing catches, injected before the operation takes effect (for a write: after half of the bytes).",
 }
 META = {
-    "modules": ["pkgcore.vdb.repo_ops", "pkgcore.vdb.ondisk", "pkgcore.vdb.contents"],
+    "modules": ["pkgcore.vdb.repo_ops", "pkgcore.vdb.ondisk", "pkgcore.vdb.contents", "pkgcore.binpkg.repo_ops", "pkgcore.binpkg.repository"],
     "functions": ["repo_ops.install.add_data/finalize_data", "repo_ops.uninstall.finalize_data", "repo_ops.replace.finalize_data", "ondisk.tree._get_packages (listing skips .tmp.*)", "ondisk.tree package metadata reads"],
     "stubs": ["pkgcore.vdb.repo_ops.os / shutil / open wrapped (mutating calls counted, stop injected)", "package objects: plain objects carrying the tracked attributes repo_ops reads", "domain: object with pm_tmpdir"],
     "bounds": {"quick": "operation index 0..39, 4 operations, 2 metadata shapes", "thorough": "same (the space is swept completely in both tiers)"},
-    "outside": ["binary-package repositories (binpkg/repo_ops.py)", "power loss below the system-call level", "concurrent readers holding a listing cache"],
+    "outside": ["stops inside the tarball/xpak writing of a binary package (they happen on the .tmp. file)", "power loss below the system-call level", "concurrent readers holding a listing cache"],
     "assumptions": [],
     "selector_only": True,
 }
 
-OPS = ["install", "uninstall", "replace-same-version", "replace-other-version"]
+OPS = ["install", "uninstall", "replace-same-version", "replace-other-version", "replace-other-revision"]
+BINOPS = ["install", "uninstall", "replace-same-version"]
+NEWVER = {"replace-other-version": "2", "replace-other-revision": "1-r1"}
 MAXOP = 39
 
 
@@ -133,9 +137,13 @@ def mkpkg(td, ver, tag, rich):
     )
 
 
-def view(location):
+def mktree(kind, location):
+    return ondisk.tree(location, disable_cache=True) if kind == "vdb" else bin_repo.tree(location)
+
+
+def view(location, kind="vdb"):
     """what a fresh repository object lists and reads: version -> metadata, or a string describing what cannot be read"""
-    tree = ondisk.tree(location, disable_cache=True)
+    tree = mktree(kind, location)
     out = {}
     try:
         pkgs = list(tree)
@@ -149,22 +157,27 @@ def view(location):
     return out
 
 
-def run_op(op, tree, old, new, domain):
+OBS = SimpleNamespace(phase_start=lambda *a: None, phase_end=lambda *a: None)
+
+
+def run_op(op, tree, old, new, domain, kind="vdb"):
+    mod = repo_ops if kind == "vdb" else bin_ops
+    args = (domain,) if kind == "vdb" else ()
     if op == "install":
-        o = repo_ops.install(tree, new, None)
+        o = mod.install(tree, new, OBS)
         o.start()
-        o.add_data(domain)
+        o.add_data(*args)
         o.finalize_data()
     elif op == "uninstall":
-        o = repo_ops.uninstall(tree, old, None)
+        o = mod.uninstall(tree, old, OBS)
         o.start()
         o.remove_data()
         o.finalize_data()
     else:
-        o = repo_ops.replace(tree, old, new, None)
+        o = mod.replace(tree, old, new, OBS)
         o.start()
         o.remove_data()
-        o.add_data(domain)
+        o.add_data(*args)
         o.finalize_data()
 
 
@@ -181,6 +194,8 @@ class VdbHarness(Harness):
     def body(self, inp):
         c = core.fix(inp) if core.ENG is not None else inp
         op = self.ob["op"]
+        kind = self.ob.get("kind", "vdb")
+        mod = repo_ops if kind == "vdb" else bin_ops
         td = os.path.realpath(tempfile.mkdtemp(prefix="c29-"))
         try:
             states = {}
@@ -188,39 +203,40 @@ class VdbHarness(Harness):
                 loc = os.path.join(td, run, "vdb")
                 os.makedirs(loc)
                 domain = SimpleNamespace(pm_tmpdir=os.path.join(td, run, "tmp"))
-                tree = ondisk.tree(loc, disable_cache=True)
+                tree = mktree(kind, loc)
                 old = mkpkg(os.path.join(td, run), "1", "old", c["rich"])
-                new = mkpkg(os.path.join(td, run), "1" if op != "replace-other-version" else "2", "new", c["rich"])
+                new = mkpkg(os.path.join(td, run), NEWVER.get(op, "1"), "new", c["rich"])
                 if op != "install":
-                    run_op("install", tree, None, old, domain)
-                before = view(loc)
+                    run_op("install", tree, None, old, domain, kind)
+                before = view(loc, kind)
                 if run == "twin":
-                    run_op(op, tree, old, new, domain)
-                    states["after"] = view(loc)
+                    run_op(op, tree, old, new, domain, kind)
+                    states["after"] = view(loc, kind)
                     states["before"] = before
                     continue
                 counter = Counter(c["stop_at"])
                 real_transfer = data_source.local_source.transfer_to_path
                 outcome = "completed"
-                with patched((repo_ops, "os", FaultyOs(counter)), (repo_ops, "shutil", FaultyShutil(counter)), (repo_ops, "open", faulty_open(counter))):
+                binds = [(mod, "os", FaultyOs(counter))] + ([(mod, "shutil", FaultyShutil(counter)), (mod, "open", faulty_open(counter))] if kind == "vdb" else [])
+                with patched(*binds):
                     try:
-                        run_op(op, ondisk.tree(loc, disable_cache=True), old, new, domain)
+                        run_op(op, mktree(kind, loc), old, new, domain, kind)
                     except Crash:
                         outcome = "stopped"
-                seen = view(loc)
+                seen = view(loc, kind)
         finally:
             shutil.rmtree(td, ignore_errors=True)
         out = {"op": op, "rich": c["rich"], "stop_at": c["stop_at"], "stopped_in": counter.hit, "operations": counter.trace, "outcome": outcome, "problem": None}
         if counter.hit is None:
             return out
         ok = seen == states["before"] or seen == states["after"]
-        if not ok and op == "replace-other-version":
+        if not ok and op in NEWVER:
             both = dict(states["before"])
             both.update(states["after"])
             ok = seen == both
         if not ok:
             kind = "nothing listed" if not seen else ("partial or unreadable package listed" if any(isinstance(v, str) for v in seen.values()) or "listing" in seen else "a state that is neither the old nor the new one")
-            if "same-version-replace-window" in self.active and op == "replace-same-version" and not seen and counter.hit.startswith("rename("):
+            if "same-version-replace-window" in self.active and kind == "vdb" and op == "replace-same-version" and not seen and counter.hit == "rename(.tmp.pkg-1)":
                 return out
             out["problem"] = f"stopped in {counter.hit}: {kind}"
             out["seen"] = {k: (v if isinstance(v, str) else sorted(v)) for k, v in seen.items()}
@@ -239,5 +255,6 @@ UNIVERSE = {}
 
 def obligations(tier, seed):
     obs = [{"oid": f"vdb {op}|stop index {lo}..{lo + 9}", "op": op, "lo": lo, "hi": lo + 9, "max_paths": 100000, "max_s": 2400} for op in OPS for lo in (0, 10, 20, 30)]
+    obs += [{"oid": f"binpkg {op}|stop index 0..5", "kind": "binpkg", "op": op, "lo": 0, "hi": 5, "max_paths": 100000, "max_s": 2400} for op in BINOPS]
     UNIVERSE[tier] = {"obligations": len(obs)}
     return obs
